@@ -2,7 +2,7 @@
 From Coq Require Import String.
 From Coq Require Import List ZArith NArith Bool Lia.
 From Flocq Require Import IEEE754.BinarySingleNaN.
-From Cambrian Require Import Base.F64 SourceFacts Syntax Ops.
+From Cambrian Require Import Base.F64 Base.F64Proofs SourceFacts Syntax Ops.
 Import ListNotations.
 
 (** ** Bernoulli at the end points *)
@@ -40,11 +40,11 @@ Section Leaves.
   Qed.
 
   Lemma p0_real i sc mn mx x x' :
-    mut_check fzero ms (SReal i sc mn mx) p c (VReal x) (VReal x') = Some c' -> to_bits x' = to_bits x /\ c' = c.
+    mut_check fzero ms (SReal i sc mn mx) p c (VReal x) (VReal x') = Some c' -> x' = x /\ c' = c.
   Proof.
     cbn [mut_check]. unfold real_step_ok. rewrite can_true_zero, p_valid_zero. cbn [andb orb].
-    rewrite orb_false_r. unfold fbits_eq. destruct (Z.eqb (to_bits x) (to_bits x')) eqn:E; [|discriminate].
-    intros H; inversion H. apply Z.eqb_eq in E. auto.
+    rewrite orb_false_r. destruct (fbits_eq x x') eqn:E; [|discriminate].
+    intros H; inversion H. apply fbits_eq_eq in E. auto.
   Qed.
 
   Lemma p0_int i sc mn mx z z' :
@@ -74,11 +74,11 @@ Section Leaves.
   (** any probability: a real with both bounds stays finite and inside, whatever the sample was *)
   Lemma real_both_bounds mp i sc a b x x' :
     mut_check mp ms (SReal i sc (Some a) (Some b)) p c (VReal x) (VReal x') = Some c' ->
-    to_bits x' = to_bits x \/ (fle a x' = true /\ fle x' b = true).
+    x' = x \/ (fle a x' = true /\ fle x' b = true).
   Proof.
     cbn [mut_check]. unfold real_step_ok. destruct (p_valid mp); [|discriminate]. cbn [andb].
     destruct (fbits_eq x x') eqn:E.
-    - intros _. left. unfold fbits_eq in E. apply Z.eqb_eq in E. auto.
+    - intros _. left. apply fbits_eq_eq in E. auto.
     - cbn [orb]. destruct (can_true mp && cauchy_ok sc ms); [|discriminate]. cbn [andb].
       destruct (fle a x'); [|discriminate]. destruct (fle x' b); [|discriminate]. intros _. right. auto.
   Qed.
